@@ -20,6 +20,13 @@ type spec struct {
 	Ops    int         `json:"ops"`
 	Cfg    hist.Config `json:"cfg"`
 	Daemon bool        `json:"daemon"` // acks through Store.SyncDB / the /sync endpoint
+	// DiskFull: the litestream meta directory lives on its own small tmpfs that is filled
+	// for the duration of 1-2 litestream operations now and then (local ENOSPC episodes)
+	DiskFull bool `json:"disk_full,omitempty"`
+	// Demo "close-never-initialised": pinned demonstration of the listed finding
+	// (an application write transaction is open from before litestream starts until
+	// just before Close, so litestream never manages to initialise)
+	Demo string `json:"demo,omitempty"`
 }
 
 func init() {
@@ -43,6 +50,7 @@ func cases(run *vf.Run) ([]json.RawMessage, error) {
 		n = 1500
 	}
 	var out []json.RawMessage
+	out = append(out, vf.Spec(spec{Seed: 1, Ops: 0, Cfg: hist.Config{PageSize: 4096, MinCheckpointPageN: 1000}, Demo: "close-never-initialised"}))
 	for i := 0; i < n; i++ {
 		rng := rand.New(rand.NewSource(vf.SubSeed(run.Seed, "C01", i)))
 		cfg := hist.RandomConfig(rng)
@@ -51,6 +59,21 @@ func cases(run *vf.Run) ([]json.RawMessage, error) {
 		cfg.AutoVacuum = (i / len(hist.PageSizes)) % 3
 		s := spec{Seed: vf.SubSeed(run.Seed, "C01-case", i), Ops: 30 + rng.Intn(50), Cfg: cfg, Daemon: i%4 == 3}
 		out = append(out, vf.Spec(s))
+	}
+	// histories with local disk-full episodes (appended: the cases above keep their indices)
+	nf := 24
+	if run.Tier == "thorough" {
+		nf = 400
+	}
+	for i := 0; i < nf; i++ {
+		rng := rand.New(rand.NewSource(vf.SubSeed(run.Seed, "C01F", i)))
+		cfg := hist.RandomConfig(rng)
+		cfg.PageSize = hist.PageSizes[(i+5)%len(hist.PageSizes)]
+		cfg.AutoVacuum = i % 3
+		if i%2 == 0 {
+			cfg.MinCheckpointPageN = []int{2, 5}[rng.Intn(2)]
+		}
+		out = append(out, vf.Spec(spec{Seed: vf.SubSeed(run.Seed, "C01F-case", i), Ops: 40 + rng.Intn(40), Cfg: cfg, Daemon: i%4 == 3, DiskFull: true}))
 	}
 	return out, nil
 }
@@ -69,6 +92,14 @@ func runCase(run *vf.Run, raw json.RawMessage, dir string) *vf.Result {
 		return res
 	}
 	defer e.Close()
+	faults := s.DiskFull
+	if faults {
+		if err := e.MountMeta(64); err != nil {
+			res.Count("local_fault_unavailable(mount failed)", 1)
+			res.Logf("no disk-full episodes in this history: %v", err)
+			faults = false
+		}
+	}
 	var dmn *hist.Daemon
 	if s.Daemon {
 		dmn, err = e.StartDaemon(nil)
@@ -105,8 +136,49 @@ func runCase(run *vf.Run, raw json.RawMessage, dir string) *vf.Result {
 		}
 		return fail(e.AckCompare(tag))
 	}
+	if s.Demo == "close-never-initialised" {
+		// application holds a write transaction from the start; every litestream sync
+		// fails with SQLITE_BUSY while creating its bookkeeping table; the application
+		// commits; clean shutdown
+		if err := e.ToggleOpenTx(); err != nil {
+			res.HarnessErr = err.Error()
+			return res
+		}
+		for i := 0; i < 3; i++ {
+			err := e.LS.SyncAndWait(ctx)
+			e.Logf("SyncAndWait err=%v", err)
+		}
+		if err := e.EndOpenTx(true); err != nil {
+			res.HarnessErr = err.Error()
+			return res
+		}
+		ops = append(ops, "demo")
+	}
+	fullLeft := 0 // litestream operations left in the current disk-full episode
+	failedFull := 0
+	lsErr := func(err error) {
+		if err != nil && e.MetaIsFull() {
+			failedFull++
+		}
+	}
 	for i := 0; i < s.Ops; i++ {
 		r := rng.Intn(30)
+		if faults && !e.MetaIsFull() && rng.Intn(8) == 0 {
+			if err := e.MetaFull(true); err != nil {
+				res.HarnessErr = "harness: fill meta fs: " + err.Error()
+				return res
+			}
+			fullLeft = 1 + rng.Intn(2)
+			res.Count("diskfull_episodes", 1)
+			e.Logf("meta directory file system is now full")
+			ops = append(ops, "diskfull-on")
+			if rng.Intn(2) == 0 {
+				r = 16 + rng.Intn(14) // a litestream operation right away
+			}
+		}
+		if e.MetaIsFull() && r >= 16 {
+			fullLeft--
+		}
 		var op string
 		switch {
 		case r < 9:
@@ -145,6 +217,7 @@ func runCase(run *vf.Run, raw json.RawMessage, dir string) *vf.Result {
 			op = "sync"
 			err := e.LS.Sync(ctx)
 			e.Logf("DB.Sync err=%v", err)
+			lsErr(err)
 		case r < 20:
 			op = "rsync"
 			err := e.LS.Replica.Sync(ctx)
@@ -154,6 +227,7 @@ func runCase(run *vf.Run, raw json.RawMessage, dir string) *vf.Result {
 			op = "ckpt-" + mode
 			err := e.LS.Checkpoint(ctx, mode)
 			e.Logf("DB.Checkpoint(%s) err=%v", mode, err)
+			lsErr(err)
 			if err == nil {
 				res.Count("ls_checkpoint_"+mode, 1)
 			}
@@ -189,9 +263,25 @@ func runCase(run *vf.Run, raw json.RawMessage, dir string) *vf.Result {
 				}
 			} else {
 				res.Count("sync_wait_failed", 1)
+				lsErr(err)
 			}
 		}
 		ops = append(ops, op)
+		if e.MetaIsFull() && fullLeft <= 0 {
+			if err := e.MetaFull(false); err != nil {
+				res.HarnessErr = "harness: free meta fs: " + err.Error()
+				return res
+			}
+			e.Logf("meta directory file system has space again")
+			ops = append(ops, "diskfull-off")
+		}
+	}
+	if err := e.MetaFull(false); err != nil {
+		res.HarnessErr = "harness: free meta fs: " + err.Error()
+		return res
+	}
+	if s.DiskFull {
+		res.Count("litestream_calls_failed_while_disk_full", failedFull)
 	}
 	// final: unpin, close (a clean shutdown that returns nil is an acknowledgement)
 	if err := e.EndOpenTx(rng.Intn(2) == 0); err != nil {
@@ -205,6 +295,9 @@ func runCase(run *vf.Run, raw json.RawMessage, dir string) *vf.Result {
 			return res
 		}
 	}
+	// Listed finding (F27): Close skips its final sync for a database litestream has
+	// never been able to initialise (no connection yet), and returns nil.
+	neverInit := e.LS.SQLDB() == nil
 	cctx, cancel := context.WithTimeout(ctx, 60*time.Second)
 	if dmn != nil {
 		err = dmn.Close(cctx)
@@ -215,7 +308,16 @@ func runCase(run *vf.Run, raw json.RawMessage, dir string) *vf.Result {
 	e.Logf("Close err=%v", err)
 	if err == nil {
 		res.Count("ack_close", 1)
-		if ack("close") {
+		if neverInit {
+			res.Count("ack_close_of_never_initialised_database", 1)
+			if v, herr := e.AckCompare("close"); herr != nil {
+				res.HarnessErr = herr.Error()
+				return res
+			} else if v != "" {
+				res.Violate("ack-restore-differs:close-of-never-initialised-database", "%s; litestream had not been able to initialise the database before Close (every sync failed, e.g. SQLITE_BUSY against a long application transaction), Close skipped its final sync and returned nil [%s]", v, s.Cfg)
+				return res
+			}
+		} else if ack("close") {
 			return res
 		}
 	} else {
